@@ -42,7 +42,8 @@ static int cmpp(const void* a, const void* b) {
   return x < y ? -1 : x > y;
 }
 static int idof(uv_signal_t* h) { for (int i = 0; i < nh; i++) if (hs[i] == h) return i; return -1; }
-static void signal_cb(uv_signal_t* h, int signum);
+static void signal_cb_a(uv_signal_t* h, int signum);
+static void signal_cb_b(uv_signal_t* h, int signum);
 static void run_script(const char* text);
 
 static void close_cb(uv_handle_t* h) {
@@ -56,7 +57,8 @@ static void close_cb(uv_handle_t* h) {
 static int usable(int i) { return i >= 0 && i < nh && !freed[i] && !uv_is_closing((uv_handle_t*) hs[i]); }
 
 /* returns 1 and sets *rc when the op was performed */
-static int do_op(const char* op, int i, int sig, int* rc) {
+static int do_op(const char* op, int i, int sig, int cbid, int* rc) {
+  uv_signal_cb signal_cb = cbid ? signal_cb_b : signal_cb_a;   /* two distinct user callbacks: c0 / c1 */
   /* uv_ref/uv_unref are legal on a closing handle (until close_cb releases the memory) */
   if (!strcmp(op, "ref") || !strcmp(op, "unref")) {
     if (i < 0 || i >= nh || freed[i]) return 0;
@@ -73,17 +75,20 @@ static int do_op(const char* op, int i, int sig, int* rc) {
   return 1;
 }
 
-static void signal_cb(uv_signal_t* h, int signum) {
+static void signal_cb_any(uv_signal_t* h, int signum, int which) {
   unsigned k = ncb++;
-  printf("cb signal h%d %d\n", idof(h), signum);
+  printf("cb signal h%d %d c%d\n", idof(h), signum, which);
   if (k < MAXK && script[k]) run_script(script[k]);
 }
+
+static void signal_cb_a(uv_signal_t* h, int signum) { signal_cb_any(h, signum, 0); }
+static void signal_cb_b(uv_signal_t* h, int signum) { signal_cb_any(h, signum, 1); }
 
 static void run_script(const char* text) {
   char* copy = strdup(text); char* save; char* w;
   for (w = strtok_r(copy, " \n", &save); w; w = strtok_r(NULL, " \n", &save)) {
-    char op[16]; int i, sig = 0, rc;
-    if (sscanf(w, "%15[a-z]:%d:%d", op, &i, &sig) >= 2) do_op(op, i, sig, &rc);
+    char op[16]; int i, sig = 0, cbid = 0, rc;
+    if (sscanf(w, "%15[a-z]:%d:%d:%d", op, &i, &sig, &cbid) >= 2) do_op(op, i, sig, cbid & 1, &rc);
   }
   free(copy);
 }
@@ -125,7 +130,7 @@ int main(void) {
     sigprocmask(SIG_UNBLOCK, &set, NULL);
   }
   while (fgets(line, sizeof line, stdin)) {
-    char op[16]; int i, sig = 0, off; unsigned k;
+    char op[16]; int i, sig = 0, off, cbid = 0; unsigned k;
     if (!strncmp(line, "init ", 5)) {
       char* p = line + 5; int n;
       if (nl || sscanf(p, "%d%n", &nl, &n) != 1 || nl < 1 || nl > MAXL) { printf("bad-op\n"); continue; }
@@ -171,11 +176,11 @@ int main(void) {
       uv_run(loops[i], UV_RUN_NOWAIT);
       printf("ran %d\n", i);
       obs();
-    } else if (sscanf(line, "%15s h%d %d", op, &i, &sig) >= 2 && i >= 0 && i < nh) {
+    } else if (sscanf(line, "%15s h%d %d %d", op, &i, &sig, &cbid) >= 2 && i >= 0 && i < nh) {
       int rc;
       if (strcmp(op, "start") && strcmp(op, "oneshot") && strcmp(op, "stop") && strcmp(op, "close") &&
           strcmp(op, "ref") && strcmp(op, "unref")) { printf("bad-op\n"); continue; }
-      if (do_op(op, i, sig, &rc)) printf("ret %d\n", rc); else printf("ret skip\n");
+      if (do_op(op, i, sig, cbid & 1, &rc)) printf("ret %d\n", rc); else printf("ret skip\n");
       obs();
     } else if (line[0] != '\n') printf("bad-op\n");
   }
